@@ -287,6 +287,13 @@ var codeShapes = []string{
 	`<a href=@@>`, `<a title=@@>`, `<a href=/x/@@>`, `<@@>`, `<a@@>`, `<a @@="x">`, `<a x@@="y">`, `<a @@>`, `</@@>`, `<a href="x" @@>`,
 	`<a href="@@">`, `<a href='@@'>`, `<img src="@@">`, `<form action="@@">`, `<button formaction="@@">`, `<img srcset="@@">`, `<img srcset="a.png 1x, @@ 2x">`, `<video poster="@@">`, `<a xlink:href="@@">`,
 	`<script><!--<script></script>@@--></script>`, `<script><!--<SCRIPT>x</SCRIPT>@@//--></script>`, `<script>/*<!--*/</script><p>@@</p>`,
+	// bogus comments: the engine neutralises the '<' so that the action stays in text
+	`<p><![CDATA[@@]]></p>`, `<p><![cdata[@@]]></p>`, `<p><!x @@></p>`, `<?php @@ ?>`, `<p></ @@></p>`, `<!DOCTYPE @@>`, `<!doctype html @@><p>`, `<p><!-@@-></p>`, `<p><!--->@@--></p>`, `<p><!--x--!>@@--></p>`,
+	// names and rel values assembled around conditionals
+	`<a {{if .C}}href{{end}}="@@">`, `<div {{if .C}}onclick{{end}}="@@">`, `<iframe {{if .F}}x{{else}}srcdoc{{end}}="@@"></iframe>`, `<a {{if .F}}title{{end}}="@@">`, `<div {{range .L}}style{{end}}="@@">`,
+	`<link rel="stylesheet {{if .C}}{{end}}icon" href="@@">`, `<link rel="style{{if .C}}{{end}}sheet" href="@@">`, `<link rel="{{if .C}}stylesheet{{end}} icon" href="@@">`, `<link rel="icon {{if .C}}stylesheet{{else}}x{{end}}" href="@@">`, `<link rel="icon{{/* c */}} stylesheet" href="@@">`,
+	`{{if .C}}<script{{else}}<br{{end}}>@@</script>`, `{{if .C}}<object{{else}}<br{{end}}>@@`, `{{if .C}}<style{{else}}<hr{{end}}>@@</style>`, `{{if .F}}<br{{else}}<script{{end}}>@@</script>`, `{{if .C}}<script{{else}}<div{{end}}>@@`,
+	`<s{{if .C}}cript{{end}}>@@</script>`, `<scr{{/* c */}}ipt>@@</script>`, `<scr{{if .C}}{{end}}ipt>@@</script>`, `<a hr{{if .C}}ef{{end}}="@@">`, `<div on{{if .C}}click{{end}}="@@">`,
 	`<textarea>@@</textarea>`, `<title>@@</title>`, `<p>@@</p>`, `<noscript>@@</noscript>`, `<iframe>@@</iframe>`, `<xmp>@@</xmp>`, `<plaintext>@@`,
 }
 
@@ -344,6 +351,9 @@ func checkCode(c CodeCase) evid.Outcome {
 		v := evid.Viol("%s\ntemplate: %q\ndata V=%q\noutput (err=%v): %q", msg, text, data["V"], err, out)
 		if strings.Contains(c.Shape, "<!--<script") || strings.Contains(c.Shape, "<!--<SCRIPT") {
 			v.Finding = "K-scriptesc"
+		}
+		if strings.Contains(c.Shape, "<s{{") || strings.Contains(c.Shape, "<scr{{") || strings.Contains(c.Shape, " hr{{") || strings.Contains(c.Shape, " on{{") {
+			v.Finding = "K-tagsplit"
 		}
 		if strings.Contains(c.Shape, `{{.R}}`) {
 			v.Finding = "K-reldyn"
